@@ -382,6 +382,7 @@ impl Check for C12 {
     fn rule(&self) -> String {
         "case 0: exhaustive tag table (8 kinds: encoded header == [0x91, tag], literal bytes decode to the kind; all 248 unknown tags rejected) and the golden corpus (8 record kinds incl. payment proofs, 24 requests, 24 responses, 12 addresses in MessagePack and CBOR: current encoding == committed golden, golden decodes and re-encodes identically). \
          other cases: random values of every record kind with and without ProofOfPayment round-tripped through try_serialize_record/try_deserialize_record (kind, fixed prefix, equality), chunk address recomputed from decoded bytes (incl. crafted inputs), random Request/Response round-trips in both codecs, \
+         one case in 16 first runs 4-8 threads that encode and decode chunks (up to 200 kB), scratchpads and requests at the same time (header, kind and value judged per thread); \
          then ~250 hostile byte strings per case (every prefix of short encodings, sampled prefixes of long ones, bit flips, random bytes, unknown tags, huge length prefixes) through 17 decoders which must return Ok/Err. \
          distinct_nontrivial counts distinct encoded values and distinct hostile inputs. A shard process dying (abort / stack overflow / OOM) while decoding is reported as a violation with the case index."
             .into()
@@ -409,7 +410,7 @@ impl Check for C12 {
         false
     }
     fn required_counters(&self, _tier: Tier) -> Vec<&'static str> {
-        vec!["failed-serialisations-before-roundtrips", "tags-judged", "golden-vectors", "hostile-inputs", "roundtrip:register_with_payment", "log-events-formatted"]
+        vec!["failed-serialisations-before-roundtrips", "tags-judged", "golden-vectors", "hostile-inputs", "roundtrip:register_with_payment", "log-events-formatted", "concurrent-roundtrips"]
     }
     fn miri_lane(&self, tier: Tier) -> Option<(Vec<&'static str>, usize, usize)> {
         if tier == Tier::Thorough { Some((vec!["record", "message", "address"], 12, 400)) } else { None }
@@ -428,8 +429,107 @@ impl Check for C12 {
     }
 }
 
+/// Several threads encode and decode at the same time (a node serialises records on many worker threads at once):
+/// every encoding must carry its header and decode to its value whatever the other threads are doing.
+fn concurrent_roundtrips(cx: &mut Cx) {
+    let threads = cx.rng.gen_range(4..=8);
+    let iters = cx.rng.gen_range(60..=160);
+    let seeds: Vec<u64> = (0..threads).map(|_| cx.rng.gen()).collect();
+    let handles: Vec<std::thread::JoinHandle<(u64, Vec<(String, String)>)>> = seeds
+        .into_iter()
+        .map(|seed| {
+            std::thread::spawn(move || {
+                let mut rng = rand::rngs::StdRng::seed_from_u64(seed);
+                let mut faults: Vec<(String, String)> = vec![];
+                let mut done = 0u64;
+                let owner = gen::bls_sk(&mut rng);
+                for _ in 0..iters {
+                    let size = *[0usize, 40, 3_000, 60_000, 200_000].choose(&mut rng).expect("nonempty");
+                    let chunk = gen::chunk(&mut rng, size);
+                    let r = catch(|| {
+                        let b = try_serialize_record(&chunk, RecordKind::Chunk).map_err(|e| format!("encode failed: {e:?}"))?;
+                        if b.len() < 2 || b[0] != 0x91 {
+                            return Err(format!("encoded chunk of {size} bytes starts with {} instead of the 2-byte header", hex(&b[..b.len().min(4)])));
+                        }
+                        match RecordHeader::from_record(&rec(b.to_vec())) {
+                            Ok(h) if h.kind == RecordKind::Chunk => {}
+                            other => return Err(format!("header of an encoded chunk decodes as {:?}", other.map(|h| h.kind.to_string()))),
+                        }
+                        match try_deserialize_record::<Chunk>(&rec(b.to_vec())) {
+                            Ok(back) if back == chunk => Ok(()),
+                            Ok(_) => Err("decode(encode(chunk)) != chunk".to_string()),
+                            Err(e) => Err(format!("decode(encode(chunk)) failed: {e:?}")),
+                        }
+                    });
+                    match r {
+                        Ok(Ok(())) => {}
+                        Ok(Err(e)) => faults.push(("concurrent-roundtrip:chunk".into(), e)),
+                        Err(p) => faults.push(("concurrent-roundtrip:panic".into(), p)),
+                    }
+                    let n = rng.gen_range(0..300);
+                    let pad = gen::pad(&owner, rng.gen(), &gen::bytes(&mut rng, n), rng.gen());
+                    let r = catch(|| {
+                        let b = try_serialize_record(&pad, RecordKind::Scratchpad).map_err(|e| format!("encode failed: {e:?}"))?;
+                        if b.len() < 2 || b[0] != 0x91 {
+                            return Err(format!("encoded scratchpad starts with {}", hex(&b[..b.len().min(4)])));
+                        }
+                        match RecordHeader::from_record(&rec(b.to_vec())) {
+                            Ok(h) if h.kind == RecordKind::Scratchpad => {}
+                            other => return Err(format!("header decodes as {:?}", other.map(|h| h.kind.to_string()))),
+                        }
+                        match try_deserialize_record::<Scratchpad>(&rec(b.to_vec())) {
+                            Ok(back) if back == pad => Ok(()),
+                            Ok(_) => Err("decode(encode(pad)) != pad".to_string()),
+                            Err(e) => Err(format!("decode(encode(pad)) failed: {e:?}")),
+                        }
+                    });
+                    match r {
+                        Ok(Ok(())) => {}
+                        Ok(Err(e)) => faults.push(("concurrent-roundtrip:scratchpad".into(), e)),
+                        Err(p) => faults.push(("concurrent-roundtrip:panic".into(), p)),
+                    }
+                    let req = random_request(&mut rng);
+                    let r = catch(|| match rmp_serde::to_vec(&req).map_err(|e| e.to_string()).and_then(|b| rmp_serde::from_slice::<Request>(&b).map_err(|e| e.to_string())) {
+                        Ok(back) if back == req => Ok(()),
+                        Ok(_) => Err("decode(encode(request)) != request".to_string()),
+                        Err(e) => Err(e),
+                    });
+                    match r {
+                        Ok(Ok(())) => {}
+                        Ok(Err(e)) => faults.push(("concurrent-roundtrip:request".into(), e)),
+                        Err(p) => faults.push(("concurrent-roundtrip:panic".into(), p)),
+                    }
+                    done += 3;
+                    if faults.len() > 20 {
+                        break;
+                    }
+                }
+                (done, faults)
+            })
+        })
+        .collect();
+    for h in handles {
+        match h.join() {
+            Ok((done, faults)) => {
+                cx.count_n("concurrent-roundtrips", done);
+                for _ in 0..done {
+                    cx.eval();
+                }
+                for (sig, detail) in faults.into_iter().take(3) {
+                    cx.violation(sig, detail, json!({"threads": threads, "iterations": iters}));
+                }
+            }
+            Err(_) => cx.violation("concurrent-roundtrip:panic", "an encoding thread died".to_string(), json!({"threads": threads})),
+        }
+    }
+    cx.count("cases-with-concurrent-encoders");
+}
+
 impl C12 {
     fn run_case_inner(&self, cx: &mut Cx) {
+        if cx.index % 16 == 5 {
+            concurrent_roundtrips(cx);
+        }
         if cx.index == 0 {
             check_tags(cx);
             check_golden(cx);
